@@ -122,6 +122,10 @@ def coq_expr(case, out):
     P = out["params"]
     n = len(P)
     parts = []
+    # the implementation reconstructs chi from its coefficients in double precision; the denominator z - c1 - c2/z is O(h^2) formed from O(1)
+    # numbers, so that evaluation carries a relative round-off of order eps / h^2 (h = the smallest omega*dt / omega_0*dt in play)
+    hmin = min([abs(F(w)) * F(case["dt"]) for w in case["omegas"]] + [abs(float(case.get("x", 1.0)))])
+    tolchi = core.qlit(1e-8 + 512 * 2.3e-16 / max(hmin * hmin, 1e-300))
     if "axis" in out:
         c = out["axis"]["c"]
         for p in range(n):
@@ -131,7 +135,7 @@ def coq_expr(case, out):
             for ax in (range(3) if wi == 2 else [wi] if wi == 0 else []):
                 zi = cpx(out["axis"]["chi"][wi], ax); zm = cpx(out["axis"]["model"][wi], ax)
                 sc = core.qlit(max(abs(zi), abs(zm), 1e-300))
-                parts.append(f"cclose tol8 {sc} (d_chi {lst([tup(c, p, ax) for p in range(n)])} {qh(w)} {dt}) {cq(zi)}")
+                parts.append(f"cclose {tolchi} {sc} (d_chi {lst([tup(c, p, ax) for p in range(n)])} {qh(w)} {dt}) {cq(zi)}")
                 parts.append(f"cclose tol8 {sc} (d_model {lst([mkp(P[p], ax) for p in range(n)])} {qh(w)}) {cq(zm)}")
     elif out.get("axis_error") and not out["axis_error"].startswith("oriented") and "is oriented" not in out["axis_error"]:
         parts.append("existsb is_none " + lst([f"d_coeffs {mkp(P[p], ax)} {dt}" for p in range(n) for ax in range(3)]))
@@ -148,7 +152,7 @@ def coq_expr(case, out):
         for (i, j) in [(0, 0), (0, 1), (1, 2), (2, 2)]:
             zi = cpx(out["tensor"]["chi"][2], 3 * i + j)
             sc = core.qlit(max(abs(cpx(out["tensor"]["chi"][2], k)) for k in range(9)) + 1e-300)
-            parts.append(f"cclose tol8 {sc} (d_chi {lst([tup(c, p, i, 3 * i + j) for p in range(n)])} {qh(w)} {dt}) {cq(zi)}")
+            parts.append(f"cclose {tolchi} {sc} (d_chi {lst([tup(c, p, i, 3 * i + j) for p in range(n)])} {qh(w)} {dt}) {cq(zi)}")
     elif "tensor_error" in out:
         parts.append("existsb is_none " + lst([f"d_coeffs {mkp(P[p], ax)} {dt}" for p in range(n) for ax in range(3)])
                      if "negative coupling" not in out["tensor_error"] else "true")
@@ -222,7 +226,8 @@ def predicate(case, out):
                     rec = c3 / (z - c1 - c2 / z)
                     ref = chi_decl(P[p], ax, w)
                     w0, g = F(P[p]["w0"][ax]), F(P[p]["g"][ax])
-                    bound = 1.5 * h * h * (w * w / 12 + g * w / 6) / abs(w0 * w0 - w * w - 1j * g * w) + 1e-9
+                    # + round-off of this double-precision evaluation: the denominator z - c1 - c2/z is O(h^2), formed from O(1) stored coefficients
+                    bound = 1.5 * h * h * (w * w / 12 + g * w / 6) / abs(w0 * w0 - w * w - 1j * g * w) + 1e-9 + 64 * 2.3e-16 / (h * h)
                     if abs(rec - ref) > bound * abs(ref):
                         return (key, f"recurrence response of pole {p} axis {ax} at omega*dt={h:.3g} deviates {abs(rec - ref) / abs(ref):.3e} from the model (bound {bound:.3e})")
     # zero padding
